@@ -9,11 +9,6 @@ open KlogV.Go KlogV.Rx KlogV.RxM KlogV.GoL.Rx
 set_option linter.unusedSimpArgs false
 
 /-- the pattern of the code denotes the expected marked language (decided in the kernel by the verified checker) -/
-theorem datePattern_tied' : equivCheck 2000 (mark Gen.rx_klog_datePattern) (mark Expect.date) = true := by decide +kernel
-
-theorem date_iff (env : Env) (m : List Sym) :
-    Matches env (mark Gen.rx_klog_datePattern) m ↔ Matches env (mark Expect.date) m :=
-  KlogV.Rx.equivCheck_sound 2000 _ _ datePattern_tied' env m
 
 theorem range3 : List.range 3 = [0, 1, 2] := by decide
 
